@@ -17,6 +17,8 @@ THEOREMS = [
     "Verif.C04.over_errors",
     "Verif.C04.by_spec",
     "Verif.C04.by_all_full_windows",
+    "Verif.C04.by_by",
+    "Verif.C04.by_by_sum",
     "Verif.C04.by_ts_refused",
     "Verif.C04.by_window_spec",
     "Verif.C04.to_is_over",
@@ -27,6 +29,11 @@ THEOREMS = [
     "Verif.C04.to_eq_by",
     "Verif.C04.to_multiple_eq_by_dropLast",
     "Verif.C04.to_single_block_refused",
+    "Verif.C04.to_step_force",
+    "Verif.C04.to_step_safe_ceil",
+    "Verif.C04.to_step_ceil_largest_multiple",
+    "Verif.C04.to_answers_iff",
+    "Verif.C04.to_freq_is_to",
     "Verif.C04.to_window_spec",
     "Verif.C04.F3_witness",
     "Verif.C04.like_same_timestamps",
@@ -39,9 +46,14 @@ THEOREMS = [
     "Verif.C04.like_spec",
     "Verif.C04.like_overlap_witness",
     "Verif.C04.isolatedGrowth_flag",
+    "Verif.C04.like_refusals",
+    "Verif.C04.like_answers_iff",
     "Verif.C04.repair_spec",
     "Verif.C04.arith_spec",
     "Verif.C04.arith_refused",
+    "Verif.C04.neg_scalar_spec",
+    "Verif.C04.arith_chain",
+    "Verif.C04.sub_eq_add_neg",
     "Verif.C04.F9_witness",
 ]
 RULE = (
@@ -595,6 +607,28 @@ def _call(case):
         except Exception as e:
             out.append(errname(e))
         return out if in_model(case) else out[:1]
+    if k == "neg":
+        r = -build(case["a"])
+        return ["ok " + show(r.timestamps, r.data)]
+    if k == "ariths":
+        a = build(case["a"])
+        x = float(fr(case["x"]))
+        if case.get("x_form") == "int" and x == int(x):
+            x = int(x)
+        f = {"add": lambda x, y: x + y, "sub": lambda x, y: x - y, "mul": lambda x, y: x * y, "div": lambda x, y: x / y}[case["operator"]]
+        r = f(x, a) if case["reversed"] else f(a, x)
+        return ["ok " + show(r.timestamps, r.data)]
+    if k == "arith3":
+        a, b, c = build(case["a"]), build(case["b"]), build(case["c"])
+        f1 = {"add": lambda x, y: x + y, "sub": lambda x, y: x - y, "mul": lambda x, y: x * y, "div": lambda x, y: x / y}[case["operator"]]
+        f2 = {"add": lambda x, y: x + y, "sub": lambda x, y: x - y, "mul": lambda x, y: x * y, "div": lambda x, y: x / y}[case["operator2"]]
+        r = f2(f1(a, b), c)
+        return ["ok " + show(r.timestamps, r.data)]
+    if k == "byby":
+        s = build(case["src"])
+        _warm(lambda: s.downsampled_by(case["k1"], reduce=_other_reduce(case["reduce"])).downsampled_by(case["k2"], reduce=_other_reduce(case["reduce"])))
+        r = s.downsampled_by(case["k1"], reduce=np_reduce(case["reduce"])).downsampled_by(case["k2"], reduce=np_reduce(case["reduce"]))
+        return [f"ok {period_of(r)} " + show(r.timestamps, r.data)]
     if k == "getitem":
         s = build(case["src"])
         r = s[case["lo"] : case["hi"]]
@@ -671,6 +705,15 @@ def ops(case):
             f"c04.likepw {src_tokens(case['src'])} {case['reduce']} {src_tokens(case['ref'])}",
             f"c04.likewins {src_tokens(case['src'])} {src_tokens(case['ref'])}",
         ]
+    if k == "neg":
+        return [f"c04.neg {src_tokens(case['a'])}"]
+    if k == "ariths":
+        x = fr(case["x"])
+        return [f"c04.ariths {case['operator']} {1 if case['reversed'] else 0} {x.numerator}/{x.denominator} {src_tokens(case['a'])}"]
+    if k == "arith3":
+        return [f"c04.arith3 {case['operator']} {case['operator2']} {src_tokens(case['a'])} {src_tokens(case['b'])} {src_tokens(case['c'])}"]
+    if k == "byby":
+        return [f"c04.byby {src_tokens(case['src'])} {case['reduce']} {case['k1']} {case['k2']}"]
     if k == "getitem":
         return [f"c04.getitem {src_tokens(case['src'])} {case['lo']} {case['hi']}"]
     if k == "tofx":
@@ -856,6 +899,41 @@ def oracle_by(case, ans):
     return None
 
 
+def oracle_byby(case, ans):
+    """downsampled_by(k1) then downsampled_by(k2), stage by stage from the property text: every stage reduces exactly
+    the samples of its input inside the window and stamps the midpoint of the first and last of them"""
+    src, k1, k2 = case["src"], case["k1"], case["k2"]
+    if src["kind"] != "cont":
+        return None if ans == "NotImplementedError" else f"by-by: time series must be refused, got {ans[:100]}"
+    if k1 <= 0 or k2 <= 0:
+        return None if not ans.startswith("ok") else f"by-by: factor 0 accepted: {ans[:100]}"
+    toks = split_answer(ans)
+    if toks is None:
+        return f"by-by: refused valid factors: {ans}"
+
+    def stage(samples, k):
+        out = []
+        for i in range(len(samples) // k):
+            blk = samples[i * k : (i + 1) * k]
+            out.append(((blk[0][0] + blk[-1][0]) // 2, py_reduce(case["reduce"], [v for _, v in blk])))
+        return out
+
+    exp = stage(stage(src_samples(src), k1), k2)
+    if toks[0] not in ("?", str(src["dt"] * k1 * k2)):
+        return f"by-by: period of the result is {toks[0]}, expected {src['dt'] * k1 * k2}"
+    got = parse_samples(toks[1])
+    if not samples_close(got, exp):
+        return f"by-by: expected {str([(t, str(v)) for t, v in exp])[:300]}, got {toks[1][:300]}"
+    # the windows of the composition are the windows of downsampled_by(k1*k2): same timestamps, and for sum / min /
+    # max / mean (equal blocks) the same values
+    direct = stage(src_samples(src), k1 * k2)
+    if [t for t, _ in direct] != [t for t, _ in got]:
+        return f"by-by: timestamps {[t for t, _ in got][:20]} differ from those of downsampled_by({k1 * k2}) {[t for t, _ in direct][:20]}"
+    if case["reduce"] != "median" and not samples_close(got, direct):
+        return f"by-by: {case['reduce']} over blocks of blocks differs from downsampled_by({k1 * k2})"
+    return None
+
+
 def like_deltas(T):
     """window lengths by the documentation: the reference's own period before each sample; the first sample takes
     the first period; a period longer than its predecessor (the long frame at a frame-rate change) defaults to the
@@ -1023,6 +1101,31 @@ def oracle(case, ia):
         if c1 or len(ia) < 2:
             return c1
         return oracle_like_windows(case, ia[1])
+    if k in ("neg", "ariths", "arith3"):
+        f = {"add": lambda x, y: x + y, "sub": lambda x, y: x - y, "mul": lambda x, y: x * y, "div": lambda x, y: x / y}
+        sa = src_samples(case["a"])
+        toks = split_answer(ans)
+        if k == "arith3":
+            sb, sc = src_samples(case["b"]), src_samples(case["c"])
+            same = [t for t, _ in sa] == [t for t, _ in sb] == [t for t, _ in sc]
+            if not same:
+                return None if ans == "RuntimeError" else f"arith: different timestamps must be refused with RuntimeError, got {ans[:100]}"
+            if toks is None:
+                return f"arith: identical timestamps refused with {ans}"
+            exp = [(t, f[case["operator2"]](f[case["operator"]](x, y), z)) for (t, x), (_, y), (_, z) in zip(sa, sb, sc)]
+        else:
+            if toks is None:
+                return f"arith: {k} refused with {ans}"
+            if k == "neg":
+                exp = [(t, -x) for t, x in sa]
+            else:
+                s_ = fr(case["x"])
+                exp = [(t, f[case["operator"]](s_, x) if case["reversed"] else f[case["operator"]](x, s_)) for t, x in sa]
+        if not samples_close(parse_samples(toks[0]), exp):
+            return f"arith ({k}): expected element-wise on the same timestamps {str([(t, str(v)) for t, v in exp])[:300]}, got {toks[0][:300]}"
+        return None
+    if k == "byby":
+        return oracle_byby(case, ans)
     if k == "getitem":
         toks = split_answer(ans)
         if toks is None:
@@ -1074,8 +1177,10 @@ def nontrivial(case, ia):
         return len(got) >= 1 and n_src >= 2 * 1 and n_src > len(got)
     if k == "by":
         return case["k"] >= 2 and len(parse_samples(toks[1])) >= 1
-    if k == "arith":
+    if k in ("arith", "neg", "ariths", "arith3"):
         return len(parse_samples(toks[0])) >= 1
+    if k == "byby":
+        return case["k1"] >= 2 and case["k2"] >= 2 and len(parse_samples(toks[1])) >= 1
     if k == "getitem":
         got = len(parse_samples(toks[0]))
         return 1 <= got < len(case["src"]["vals"])
@@ -1485,6 +1590,9 @@ def cases(tier, rng):
         {"op": "to", "src": tser([5], [1]), "reduce": "mean", "where": "center", "method": "force", "freq": 1e9 / 10},
         {"op": "by", "src": t8, "reduce": "mean", "k": 2},
         {"op": "by", "src": c8, "reduce": "mean", "k": 0},
+        {"op": "byby", "src": c8, "reduce": "mean", "k1": 2, "k2": 0},
+        {"op": "byby", "src": c8, "reduce": "mean", "k1": 0, "k2": 2},
+        {"op": "byby", "src": t8, "reduce": "mean", "k1": 2, "k2": 2},
         {"op": "like", "src": c8, "ref": c8, "reduce": "mean"},
         {"op": "like", "src": t8, "ref": t8, "reduce": "mean"},
         {"op": "like", "src": c8, "ref": tags, "reduce": "mean"},
@@ -1573,6 +1681,15 @@ def cases(tier, rng):
             wins = list(itertools.product(edges, edges))
             for i, ws in enumerate(itertools.product(wins, repeat=3)):
                 yield {"stream": "small-scope", "op": "over", "src": src, "reduce": "median", "where": "center" if i % 2 else "left", "ranges": [list(w) for w in ws]}
+    # downsampled_by twice: every n <= 14 (quick 12), k1, k2 <= 4
+    idx = 0
+    for n in range(0, 13 if quick else 15):
+        for k1 in range(1, 5):
+            for k2 in range(1, 5):
+                for dt in (1, 3):
+                    idx += 1
+                    src = cont(7, dt, [((5 * i * i + 2 * i) % 13) - 5 for i in range(n)])
+                    yield {"stream": "small-scope", "op": "byby", "src": src, "reduce": REDUCERS[idx % 5], "k1": k1, "k2": k2}
     # self[a:b] inside the loops: every pair of integer bounds in [start-2, stop+2] (theorem getitem_samples)
     gi_sources = [cont(7, 1, [1, 2, 3]), cont(7, 3, [1, 2, 3, 4]), cont(7, 2, []), tser([3, 5, 6], [1, 2, 4]), tser([5], [1]), tser([3, 5, 5, 9], [1, 2, 4, 8]), tser([], [])]
     for src in gi_sources:
@@ -1624,12 +1741,33 @@ def cases(tier, rng):
                 yield {"stream": "small-scope", "op": "arith", "operator": op, "a": a, "b": cont(10, 5, b["vals"][:-1])}
                 yield {"stream": "small-scope", "op": "arith", "operator": op, "a": ta, "b": tser(tb["ts"][:-1] + [tb["ts"][-1] + 1], tb["vals"])}
 
+    # negation, scalar operands (both sides, int and float scalars), chains of two operators
+    for n in (0, 1, 3):
+        a = cont(10, 5, [2 * i - 1 for i in range(n)])
+        ta = tser([10 + 7 * i * i for i in range(n)], [3 * i + 1 for i in range(n)])
+        for x_ in (a, ta):
+            yield {"stream": "small-scope", "op": "neg", "a": x_}
+            for op in ("add", "sub", "mul", "div"):
+                for rev in (False, True):
+                    if op == "div" and rev and x_ is a and n:
+                        continue  # would divide by a zero-free channel only: a's values are odd, fine; keep ta as well
+                    for sc, form in ((3, "int"), ("-5/2", "float"), (1, "float")):
+                        yield {"stream": "small-scope", "op": "ariths", "operator": op, "reversed": rev, "x": sc, "x_form": form, "a": x_}
+        b = cont(10, 5, [i + 2 for i in range(n)])
+        c_same = tser([10 + 5 * i for i in range(n)], [i * i + 1 for i in range(n)])
+        c_shift = cont(10, 6, [1] * n)
+        for op1 in ("add", "sub", "mul", "div"):
+            for op2 in ("add", "sub", "mul", "div"):
+                yield {"stream": "small-scope", "op": "arith3", "operator": op1, "operator2": op2, "a": a, "b": b, "c": c_same}
+                yield {"stream": "small-scope", "op": "arith3", "operator": op1, "operator2": op2, "a": a, "b": b, "c": c_shift}
+                yield {"stream": "small-scope", "op": "arith3", "operator": op1, "operator2": op2, "a": a, "b": c_shift, "c": b}
+
     # ---- random
     N = 4000 if quick else 150000
     r = r_random
     for i in range(N):
         sub = r.fork(i)
-        kind = sub.choice(["over", "over", "to", "to", "toby", "by", "like", "like", "like-arbitrary", "arith", "getitem", "tof-any"])
+        kind = sub.choice(["over", "over", "to", "to", "toby", "by", "like", "like", "like-arbitrary", "arith", "getitem", "tof-any", "byby"])
         red = sub.choice(REDUCERS)
         where = sub.choice(["center", "left"])
         base = {"stream": "random", "subseed": i}
@@ -1659,6 +1797,12 @@ def cases(tier, rng):
             if f is None:
                 continue
             base.update({"op": "to", "src": src, "reduce": red, "where": where, "method": method, "freq": f})
+        elif kind == "byby":
+            src = rand_cont(sub, nmax=60)
+            n = len(src["vals"])
+            k1 = sub.choice([1, 2, 3, 4, 5, 7, sub.randint(1, max(1, n // 2))])
+            k2 = sub.choice([1, 2, 3, 4, 5, max(1, n // k1), max(1, n // k1) + 1, sub.randint(1, max(1, n // k1))])
+            base.update({"op": "byby", "src": src, "reduce": red, "k1": k1, "k2": k2})
         elif kind == "getitem":
             src = rand_cont(sub) if sub.chance(0.5) else rand_ts(sub)
             pts = boundary_points(src, sub)
@@ -1743,6 +1887,19 @@ def cases(tier, rng):
             elif mut == 2 and b["kind"] == "cont":
                 b = cont(b["start"] + sub.choice([1, -1, b["dt"]]), b["dt"], vb)
             base.update({"op": "arith", "operator": op, "a": a, "b": b})
+            form = sub.randint(0, 5)
+            if form == 0:
+                base = {"stream": "random", "subseed": i, "op": "neg", "a": a}
+            elif form == 1:
+                xs = sub.choice([2, -3, "7/4", "-1/8", 10])
+                base = {"stream": "random", "subseed": i, "op": "ariths", "operator": op, "reversed": sub.chance(0.5), "x": xs,
+                        "x_form": sub.choice(["int", "float"]), "a": dict(a, vals=[v if fr(v) != 0 else 3 for v in a["vals"]])}
+            elif form == 2 and mut > 2:
+                vc = [v if fr(v) != 0 else 3 for v in rand_vals(sub, len(a["vals"]))]
+                c3 = tser(a_ts, vc) if sub.chance(0.5) or a["kind"] != "cont" else cont(a["start"], a["dt"], vc)
+                if sub.chance(0.25) and a_ts:
+                    c3 = tser(a_ts[:-1] + [a_ts[-1] + 1], vc)
+                base.update({"op": "arith3", "operator2": sub.choice(["add", "sub", "mul", "div"]), "c": c3})
         yield base
 
 
